@@ -38,6 +38,32 @@ var intrinsics = map[string]externalFn{}
 var intrinsicCache = map[*ssa.Function]externalFn{}
 var intrinsicMiss = map[*ssa.Function]bool{}
 
+// redirects send calls of un-interpretable library methods to a model written
+// in Go inside the harness package (executed symbolically like any other code).
+// The receiver is passed as the first argument.
+var redirects = map[string]string{
+	"(*github.com/nats-io/nats.go.Conn).Status":               "verifNatsStatus",
+	"(*github.com/nats-io/nats.go.Conn).Publish":              "verifNatsPublish",
+	"(*github.com/nats-io/nats.go.Conn).PublishRequest":       "verifNatsPublishRequest",
+	"(*github.com/nats-io/nats.go.Conn).Subscribe":            "verifNatsSubscribe",
+	"(*github.com/nats-io/nats.go.Conn).QueueSubscribe":       "verifNatsQueueSubscribe",
+	"(*github.com/nats-io/nats.go.Conn).Flush":                "verifNatsFlush",
+	"(*github.com/nats-io/nats.go.Conn).FlushTimeout":         "verifNatsFlushTimeout",
+	"(*github.com/nats-io/nats.go.Conn).Barrier":              "verifNatsBarrier",
+	"(*github.com/nats-io/nats.go.Conn).NewRespInbox":         "verifNatsNewInbox",
+	"github.com/nats-io/nats.go.NewInbox":                     "verifNatsNewInbox0",
+	"(*github.com/nats-io/nats.go.Subscription).Unsubscribe":  "verifNatsUnsubscribe",
+	"(*github.com/nats-io/nats.go.Subscription).Drain":        "verifNatsDrain",
+	"(*github.com/nats-io/nats.go.Subscription).IsValid":      "verifNatsSubIsValid",
+	"(*github.com/go-stomp/stomp.Conn).Ack":                   "verifStompAck",
+	"(*github.com/go-stomp/stomp.Conn).Nack":                  "verifStompNack",
+	"(*github.com/go-stomp/stomp.Conn).Send":                  "verifStompSend",
+	"(*github.com/go-stomp/stomp.Conn).Subscribe":             "verifStompSubscribe",
+	"(*github.com/go-stomp/stomp.Subscription).Unsubscribe":   "verifStompUnsubscribe",
+	"(*github.com/go-stomp/stomp.Subscription).Active":        "verifStompActive",
+	"github.com/nats-io/nuid.Next":                            "verifNuidNext",
+}
+
 // packages all of whose functions are no-ops returning zero values
 var nopPackages = map[string]bool{
 	"github.com/sirupsen/logrus": true,
@@ -58,6 +84,13 @@ func lookupIntrinsic(fn *ssa.Function) externalFn {
 	}
 	if f == nil {
 		f = intrinsics[name]
+	}
+	if f == nil {
+		if target, ok := redirects[name]; ok {
+			if hf := I.harnessPkg.Func(target); hf != nil {
+				f = func(fr *frame, args []value) value { return callSSA(fr, hf, args, nil) }
+			}
+		}
 	}
 	if f == nil && fn.Pkg != nil && nopPackages[fn.Pkg.Pkg.Path()] {
 		f = func(fr *frame, args []value) value { return zeroResults(fn) }
@@ -152,6 +185,55 @@ func init() {
 		if m, ok := args[0].(iface).v.(*smap); ok && m != nil {
 			m.anyOrd = true
 		}
+		return nil
+	}
+	// verifHavocChanMap turns a map[K]chan T into an arbitrary unknown map: a key
+	// not set explicitly is present or absent by decision; a present one maps to a
+	// fresh channel of capacity 1 that is empty or full by decision.
+	verifIntrinsics["verifHavocChanMap"] = func(fr *frame, args []value) value {
+		m := args[0].(iface).v.(*smap)
+		filler := args[1].(iface).v
+		m.havoc = &havocInfo{mk: func(key value) value {
+			ch := newChan(1)
+			full := R.newNondet(0)
+			if R.branch(full, "havoc-chan-full") {
+				ch.buf = append(ch.buf, filler)
+			}
+			return ch
+		}}
+		return nil
+	}
+	verifIntrinsics["verifThreadBlockedOn"] = func(fr *frame, args []value) value {
+		name, op := toGoString(args[0]), toGoString(args[1])
+		for _, t := range R.threads {
+			if !t.done && t.guard != nil && !t.guard() && strings.Contains(t.name, name) && strings.Contains(t.blockedOn, op) {
+				return true
+			}
+		}
+		return false
+	}
+	verifIntrinsics["verifChanLen"] = func(fr *frame, args []value) value {
+		c, _ := args[0].(iface).v.(*chanObj)
+		if c == nil {
+			return 0
+		}
+		return len(c.buf)
+	}
+	// verifGuard(m, &mu, name): every access to map m must hold mu (read: R or W, write: W).
+	verifIntrinsics["verifGuard"] = func(fr *frame, args []value) value {
+		m, _ := args[0].(iface).v.(*smap)
+		if m != nil {
+			m.guard = args[1].(iface).v.(*value)
+			m.gname = toGoString(args[2])
+		}
+		return nil
+	}
+	// verifWatch(&x, name): x may only be accessed through sync/atomic once other goroutines exist.
+	verifIntrinsics["verifWatch"] = func(fr *frame, args []value) value {
+		if R.watched == nil {
+			R.watched = map[*value]string{}
+		}
+		R.watched[args[0].(iface).v.(*value)] = toGoString(args[1])
 		return nil
 	}
 	verifIntrinsics["verifLog"] = func(fr *frame, args []value) value {
